@@ -58,7 +58,7 @@ REQUIRED_CLASSES = ['slerp:equal', 'slerp:antipodal', 'slerp:orthogonal-tie', 's
                     'slerp:lerp-branch', 'slerp:just-below-threshold', 'slerp:just-above-threshold',
                     'slerp:near-orthogonal', 'nan:1run', 'nan:2+runs', 'nan:runlen>=3', 'nan:all-interior',
                     'nan:gap-lerp', 'nan:gap-slerp', 'nan:mixed-with-sign-flips', 'jumps:odd-count',
-                    'jumps:even-count', 'jumps:row0-flipped', 'jumps:last-row-only', 'slerp:containers', 'slerp:order-S', 'slerp:weights-ownership', 'slerp:missing-ends']
+                    'jumps:even-count', 'jumps:row0-flipped', 'jumps:last-row-only', 'slerp:containers', 'slerp:order-S', 'slerp:weights-ownership', 'slerp:missing-ends', 'slerp:weight-order', 'slerp_nan:again-on-the-same-object']
 
 W = np.array([0.0, 1e-9, 0.1, 0.25, 0.5, 0.75, 0.9, 1.0 - 1e-9, 1.0])
 
@@ -504,6 +504,65 @@ def job_orders_and_weights(ctx, k):
             except Exception as ex:
                 ctx.fail(f'{cname}: raises when the weights array is re-used', key, repr(ex)[:160], 'interpolants')
     ctx.cls('slerp:weights-ownership')
+    # (4) the weights in ANY order and with repeats: row i is the interpolant for t[i] (= the single-weight call, = the reference geodesic)
+    import itertools as _it
+    base_w = [0.0, 0.25, 0.6, 1.0]
+    wvecs = [list(pm) for pm in _it.permutations(base_w)] + [[0.0, 0.5, 0.5, 1.0], [0.5, 0.5], [1.0, 1.0, 0.0], [0.3, 0.3, 0.3], list(W[::-1]), [1.0, 0.0, 0.5], [0.5, 0.0, 1.0, 0.0]]
+    for cname, fn in _copies():
+        for (i, j) in ((0, 1), (1, 2), (0, 3)):           # spherical branch twice, linear branch once
+            p_, q_ = gen[i], gen[j]
+            s_ = rs.nearer(p_, q_) or 1
+            for wv in wvecs:
+                key = f'pair=({i},{j}) weights={wv} k{k}'
+                ctx.evals += 1
+                try:
+                    Sv = np.asarray(fn(p_.copy(), q_.copy(), np.array(wv, float)), float)
+                    singles = np.array([np.asarray(fn(p_.copy(), q_.copy(), np.array([t_], float)), float)[0] for t_ in wv])
+                except Exception as ex:
+                    ctx.fail(f'{cname}: raises for weights that are not ascending / not distinct', key, repr(ex)[:160], 'one interpolant per weight'); continue
+                ok = Sv.shape == (len(wv), 4) and float(np.abs(Sv - singles).max()) <= TOL
+                ctx.expect(ok, f'{cname}: row i is the interpolant of weight t[i], whatever the order of the weights and with repeats', key, Sv, singles, TOL)
+                ref = rs.geodesic(p_, q_, np.array(wv, float), toward=s_)
+                if Sv.shape == ref.shape:
+                    ctx.close(Sv, ref, tol_arc(rs.s3angle(p_, s_ * q_)), f'{cname}: = reference geodesic for weights in any order', key)
+    ctx.cls('slerp:weight-order')
+    # (5) slerp_nan again on the SAME object after new rows went missing (and an earlier gap row was re-measured): what a fresh object holding the
+    #     same rows gives; the first call may have seen a complete record
+    N3 = 14
+    V3 = _base('B', k, N3)
+    for first_gaps, second_gaps in (([3, 4], [9, 10, 11]), ([], [5, 6]), ([2], [2, 7]), ([6, 7, 8], [1, 12]), ([4], [4])):
+        for op in ('slerp_nan(inplace=True)', 'slerp_nan(inplace=False)'):
+            key = f'first gaps={first_gaps} then gaps={second_gaps} op={op} k{k}'
+            ctx.evals += 1
+            try:
+                Q_ = QuaternionArray(V3.copy())
+                if first_gaps:
+                    Q_[first_gaps] = np.nan; Q_.array[first_gaps] = np.nan
+                if 'True' in op:
+                    Q_.slerp_nan()
+                else:
+                    Q_.slerp_nan(inplace=False)
+                    if first_gaps:                                   # (the copying variant leaves the gaps; the caller re-measures them)
+                        Q_[first_gaps] = V3[first_gaps]; Q_.array[first_gaps] = V3[first_gaps]
+                if first_gaps:                                       # an earlier gap row is re-measured (valid from now on, another value)
+                    r0 = first_gaps[0]
+                    newrow = rq.qunit(V3[r0] + 0.02 * V3[(r0 + 5) % N3])
+                    if r0 not in second_gaps:
+                        Q_[r0] = newrow; Q_.array[r0] = newrow
+                Q_[second_gaps] = np.nan; Q_.array[second_gaps] = np.nan
+                content = np.array(Q_.array, float)
+                fresh = QuaternionArray(V3.copy())
+                fresh[:] = content; fresh.array[:] = content
+                if 'True' in op:
+                    Q_.slerp_nan(); fresh.slerp_nan()
+                    got, exp = np.asarray(Q_.array, float), np.asarray(fresh.array, float)
+                else:
+                    got, exp = np.asarray(Q_.slerp_nan(inplace=False), float), np.asarray(fresh.slerp_nan(inplace=False), float)
+            except Exception as ex:
+                ctx.fail('slerp_nan raises when called again on the same object', key, repr(ex)[:160], 'filled rows'); continue
+            ok = got.shape == exp.shape and np.array_equal(np.isfinite(got), np.isfinite(exp)) and bool(np.all(np.isfinite(got))) and float(np.abs(got - exp).max()) <= 1e-12
+            ctx.expect(ok, 'slerp_nan called again on the same object (new gaps, a re-measured row) = slerp_nan of a fresh object holding the same rows', key, got, exp, 1e-12)
+    ctx.cls('slerp_nan:again-on-the-same-object')
     ctx.sample({'order_S_gaps': [1, 2, 3, 4], 'weights_reuse': 'slerp(a,b,t); slerp(b,c,t)'})
 
 
